@@ -551,16 +551,19 @@ def xproc_history(ctx: Ctx, rng: random.Random) -> None:
                   "src": rng.choice(NOLOADER_SOURCES), "name": rng.choice(list(NOLOADER_TEMPLATES)), "data": make_data(rng)}
             shared_out = noloader_step(cfg, st, fresh=False, shared_envs=shared)
             last = st
+            # the fresh twin is configured as the environments were WHEN the step ran
+            last_cfg = {k: list(v) for k, v in cfg.items()}
+            last_clock = c.t
             steps.append(st)
         if last is None:
             return
-        fresh = xproc({"noloader": True, "cfg": cfg, "step": last, "clock": c.t})
+        fresh = xproc({"noloader": True, "cfg": last_cfg, "step": last, "clock": last_clock})
         ctx.ev(2)
         ctx.count("fresh_process_comparisons")
         ctx.count("fresh_process_comparisons_loaderless")
         ctx.nt("xproc-noloader", repr(steps))
         if tuple(shared_out) != tuple(fresh):
-            conf = [s for s in steps if s["op"] == "configure"]
+            conf = [s for s in steps[: steps.index(last)] if s["op"] == "configure"]
             other = any(s["env"] != last.get("env") for s in conf)
             ctx.violation(
                 f"process-state-leak:loaderless-env:{last['op']}{':configured-on-another-environment' if other else ''}",
